@@ -191,6 +191,8 @@ func (w *World) value(key, vc string, arg int) []byte {
 		return fill(arg)
 	case "L": // large relative to the file: two of them never fit in one file
 		return fill(int(w.Cfg.FileSize) * 3 / 10)
+	case "H": // 45% of the file: two of them exceed the limit
+		return fill(int(w.Cfg.FileSize) * 45 / 100)
 	case "X": // alone exceeds the limit
 		return fill(int(w.Cfg.FileSize) + 10)
 	case "M": // spans three blocks
@@ -521,11 +523,12 @@ func (w *World) advArgs(key string, val []byte) ([]byte, []byte) {
 		w.poison()
 	}
 	w.checkCanary("before reuse")
-	k := w.kbuf[:len(key)]
-	copy(k, key)
 	if len(val) > cap(w.vbuf) {
 		w.vbuf = make([]byte, len(val)*2)
+		w.poison()
 	}
+	k := w.kbuf[:len(key)]
+	copy(k, key)
 	v := w.vbuf[:len(val)]
 	copy(v, val)
 	return k, v
